@@ -81,7 +81,7 @@ let () =
       let (t, _) = parse_tree toks in
       let es = tar_entries (comps pre) false t in
       (* B1 = the hypotheses of the round-trip theorems hold for this tree *)
-      let hyp = if is_dir t && wf_treeb t && modes_okb t && benign_tree t then "B1" else "B0" in
+      let hyp = if is_dir t && wf_treeb t && modes_okb t && benign_tree (comps pre) t then "B1" else "B0" in
       (match extract (comps pre) (n_of_int (int_of_string umask)) (preserve = "1") es with
        | Ok f -> Printf.printf "%s %s OK %s\n" id hyp (show_fs f)
        | Err (XAbsLink | XWriteThrough) -> Printf.printf "%s UNJUDGED\n" id
